@@ -126,13 +126,44 @@ func knownContains(f Facts, text string, needle byte) (val, known bool) {
 }
 
 func knownPrefix(f Facts, text, prefix string) (val, known bool) {
-	v, ok := f[fmt.Sprintf("strings.HasPrefix(%s, %q)", text, prefix)]
-	return v, ok
+	if v, ok := f[fmt.Sprintf("strings.HasPrefix(%s, %q)", text, prefix)]; ok {
+		return v, true
+	}
+	// byte by byte: text[i] == prefix[i] for every i (and the text is long enough)
+	if v, ok := f[fmt.Sprintf("lt(len(%s),%d)", text, len(prefix))]; ok && v {
+		return false, true
+	}
+	if len(prefix) > 0 {
+		if v, ok := f["empty("+text+")"]; ok && v {
+			return false, true
+		}
+	}
+	all := true
+	for i := 0; i < len(prefix); i++ {
+		v, ok := f[fmt.Sprintf("eq(%d,%s[%d])", prefix[i], text, i)]
+		if ok && !v {
+			return false, true
+		}
+		if !ok {
+			all = false
+		}
+	}
+	if all && len(prefix) > 0 {
+		return true, true
+	}
+	return false, false
 }
 
 func knownSuffix(f Facts, text, suffix string) (val, known bool) {
-	v, ok := f[fmt.Sprintf("strings.HasSuffix(%s, %q)", text, suffix)]
-	return v, ok
+	if v, ok := f[fmt.Sprintf("strings.HasSuffix(%s, %q)", text, suffix)]; ok {
+		return v, true
+	}
+	if len(suffix) == 1 {
+		if v, ok := f[fmt.Sprintf("eq(%d,%s[(len(%s) - 1)])", suffix[0], text, text)]; ok {
+			return v, true
+		}
+	}
+	return false, false
 }
 
 func successPath(p *PXPath) bool {
@@ -267,7 +298,7 @@ func rulePXComment(c *Ctx) []Obligation {
 		return o.list
 	}
 	t := newTally(o, fn, f.Pos())
-	text := "recv.comment"
+	text := "recv." + c.commentField()
 	tx := xseg{verb: "s", val: text}
 	for _, p := range paths {
 		if p.End == "panic" {
@@ -528,6 +559,14 @@ func (c *Ctx) magicNumberConds(f *ssa.Function, depth int, seen map[*ssa.Functio
 				}
 				if _, isConst := pair[0].(*ssa.Const); isConst {
 					continue
+				}
+				// the length of a text is about its shape (a two-byte marker), not about how many items there are
+				if call, ok := pair[0].(*ssa.Call); ok {
+					if bi, ok := call.Call.Value.(*ssa.Builtin); ok && bi.Name() == "len" && len(call.Call.Args) == 1 {
+						if bt, ok := call.Call.Args[0].Type().Underlying().(*types.Basic); ok && bt.Info()&types.IsString != 0 {
+							continue
+						}
+					}
 				}
 				out = append(out, fmt.Sprintf("%s compares %s with %d at %s", fname(f), a.Desc(pair[0]), k, c.pos(bo.Pos())))
 			}
@@ -2430,7 +2469,7 @@ func rulePXImportBlock(c *Ctx) []Obligation {
 				} else if len(e.Args) > 0 {
 					d = p.Deep(e.Args[0])
 				}
-				stream = append(stream, "⟦render|"+commentSource(d)+"⟧")
+				stream = append(stream, "⟦render|"+c.commentSource(d)+"⟧")
 			case e.Kind == "call" && e.Fn == c.registerFn():
 				t.note("printing the import block registers nothing", false, "path %s calls the registration function", traceOf(p))
 			case e.Kind == "mapupdate" || e.Kind == "store":
@@ -2568,17 +2607,18 @@ func rulePXImportBlock(c *Ctx) []Obligation {
 // commentSource: which text a freshly built comment statement / comment value renders, read off its
 // deep form ("&[{comment:recv.cgoPreamble[0]}] …" → "recv.cgoPreamble[0]"); "?" if it is not a
 // comment-only value.
-func commentSource(deep string) string {
-	i := strings.Index(deep, "{comment:")
+func (c *Ctx) commentSource(deep string) string {
+	tag := "{" + c.commentField() + ":"
+	i := strings.Index(deep, tag)
 	if i < 0 {
 		return "?" + deep
 	}
-	rest := deep[i+len("{comment:"):]
+	rest := deep[i+len(tag):]
 	j := strings.Index(rest, "}")
 	if j < 0 {
 		return "?" + deep
 	}
-	if strings.Contains(rest[j:], "{comment:") || strings.Contains(deep[:i], "typ:") {
+	if strings.Contains(rest[j:], tag) || strings.Contains(deep[:i], "typ:") {
 		return "?" + deep
 	}
 	return rest[:j]
@@ -2643,7 +2683,7 @@ func rulePXFileRender(c *Ctx) []Obligation {
 				for _, a := range e.Args[:1] {
 					d += p.Deep(a)
 				}
-				if strings.HasPrefix(commentSource(d), "?") {
+				if strings.HasPrefix(c.commentSource(d), "?") {
 					okOnlyComments = false
 				}
 			}
@@ -2667,7 +2707,7 @@ func rulePXFileRender(c *Ctx) []Obligation {
 					if len(call.A) > 0 {
 						d = p.Deep(call.A[0]) // the value rendered (receiver)
 					}
-					got += "⟦" + commentSource(d) + "⟧"
+					got += "⟦" + c.commentSource(d) + "⟧"
 				}
 				continue
 			}
